@@ -196,8 +196,8 @@ def actor_term(g):
 TST = {0: "TAdding", 1: "TDraining", 2: "THealthy", 3: "TUnhealthy"}
 GST = {0: "GRunning", 1: "GPaused", 2: "GStopped"}
 GACT = {0: "AProceed", 1: "ATimedOut", 2: "AStopped"}
-CMDK = {"deploy": "KDeploy", "rollout_deploy": "KRolloutDeploy", "rollout_set": "KRolloutSet", "rollout_stop": "KRolloutStop",
-        "pause": "KPause", "stop": "KStop", "resume": "KResume", "remove": "KRemove"}
+CMDK = {"deploy": "CkDeploy", "rollout_deploy": "CkRolloutDeploy", "rollout_set": "CkRolloutSet", "rollout_stop": "CkRolloutStop",
+        "pause": "CkPause", "stop": "CkStop", "resume": "CkResume", "remove": "CkRemove"}
 ERRC = {"not_found": 1, "unhealthy": 2, "host_in_use": 3, "invalid_target": 4, "cert": 5, "wildcard_acme": 6, "pages": 7,
         "rollout_not_set": 8}
 
@@ -218,7 +218,7 @@ def rid(s):
 def kind_term(e):
     k, a = e["kind"], e["args"]
     if k == "issue":
-        return "KIssue %d %s %s" % (rid(a[0]), CMDK.get(a[1], "KDeploy"), str_lit(a[2].encode("utf-8", "surrogateescape")))
+        return "KIssue %d %s %s" % (rid(a[0]), CMDK.get(a[1], "CkDeploy"), str_lit(a[2].encode("utf-8", "surrogateescape")))
     if k == "return":
         r = a[1]
         return "KReturn %d %s" % (rid(a[0]), "CROk" if r == "ok" else "CRPanic" if r == "panic" else "(CRErr %d)" % ERRC.get(r, 99))
